@@ -38,9 +38,11 @@ class Ev:
 
 
 class Path:
-    __slots__ = ("events", "term")
+    __slots__ = ("events", "term", "_nodes", "_conds")
 
     def __init__(self, events, term):
+        self._nodes = None
+        self._conds = None
         self.events = events
         self.term = term      # 'return' | 'raise' | 'fall' (end of function) | 'cut'
 
@@ -60,7 +62,9 @@ class Path:
         return out
 
     def conds(self):
-        return [(e.node, e.pol) for e in self.events if e.kind == "cond"]
+        if self._conds is None:
+            self._conds = [(e.node, e.pol) for e in self.events if e.kind == "cond"]
+        return self._conds
 
     def describe(self, limit=12):
         return " ; ".join(repr(e) for e in self.events if e.kind != "stmt")[:600]
@@ -175,8 +179,21 @@ def _paths(stmts, unroll, in_loop):
     yield from cont([Ev("stmt", st)], None)
 
 
+_PATH_CACHE = {}
+
+
 def enumerate_paths(fn, unroll=1, limit=MAX_PATHS):
-    """All structured paths of FunctionDef `fn` as Path objects."""
+    """All structured paths of FunctionDef `fn` as Path objects (cached per node)."""
+    key = (id(fn), unroll)
+    hit = _PATH_CACHE.get(key)
+    if hit is not None and hit[0] is fn:
+        return hit[1]
+    out = _enumerate_paths(fn, unroll, limit)
+    _PATH_CACHE[key] = (fn, out)
+    return out
+
+
+def _enumerate_paths(fn, unroll, limit):
     out = []
     for ev, term in _paths(fn.body, unroll, False):
         if term is None:
